@@ -327,6 +327,10 @@ def parallel_family(W, n, flows=8):
         f2 = dict(F2, store=st if st == "memory" else "redis#1", clientId="client-two", scopes=["email", "groups"], idp="B", authzQuery="tenant=b&x=1")
         steps = [{"op": "parallel", "d": flows, "ans": ans}, {"op": "parallel", "d": flows, "ans": ans}]
         res.append({"id": "parallel2/%s/%d" % (st, i), "cfg": {"filters": [f1, f2]}, "steps": steps, "tags": ["parallel", "twoFilters"]})
+        if i < 2:
+            # a storm of cookie-less requests for both filters at once (each answered with a login redirect of its own filter)
+            res.append({"id": "storm2/%s" % st, "cfg": {"filters": [f1, f2]}, "steps": [browse("b1", "f1", 1), {"op": "storm", "d": max(n * 4, 150), "ans": ans}],
+                        "tags": ["parallel", "twoFilters"]})
     return res
 
 
